@@ -35,6 +35,6 @@ CHECKS["C07"] = dict(
                  "an iterator pass is the documented loop `if SeekFirst { for Next(TimeSpanMax) { Value } }`; the frames received are additionally compared without regard to the acknowledgements, so lost data (read-mismatch-via-gateway) and misleading acknowledgements (iterator-ack-loses-samples) have separate signatures",
                  "what a refused multi-leaseholder commit leaves behind on the leaseholders that accepted it is unspecified (the writer package documents the lack of distributed transactions): after a refused commit the script ends and the writer's channels are not inspected",
                  "a channel definition (without samples) found in a non-leaseholder engine is counted, not a violation"],
-    tests=[dict(name="TestC07", quick=dict(cases=900, shards=4, shrinktime="20s"),
+    tests=[dict(name="TestC07", quick=dict(cases=450, shards=8, shrinktime="20s"),
                 thorough=dict(cases=6000, shards=16, timeout=3000, shrinktime="60s"))],
 )
